@@ -27,7 +27,7 @@ def main(tier):
     sctl = S.control(r)
     chk.run("R-SCHEMACMP", S.schemacmp, r, s, floor=15, control=lambda: sctl)
     chk.run("R-ATTRVALUES", V.attrvalues, r, floor=4)
-    chk.run("R-DEPORDER", B.deporder, r, floor=3)
+    chk.run("R-DEPORDER", B.deporder, r, clauses=("text",), floor=3)
     chk.run("R-TEXTNAME", B.textname, r, floor=2)
     chk.run("R-DEPTWIN", P.deptwin, r, s, cx.sites, floor=2)
     chk.run("R-IFACE", C.iface, cx.cpp, cx.templates, floor=80)
